@@ -59,6 +59,15 @@ theorem frame_fanOut (env : Env) (m : Msg) (ds : List Nat) (w : World) : Frame w
   | nil => exact Frame.refl w
   | cons d ds ih => exact (frame_callDest env w d m).trans (ih _)
 
+/-- ghost bookkeeping only -/
+theorem frame_lastSlot (w : World) (l : Option (Nat × Nat)) : Frame w { w with lastSlot := l } :=
+  ⟨rfl, rfl, rfl, rfl, rfl, rfl, rfl, Nat.le_refl _, fun _ a h => ⟨a, h, rfl, rfl, Nat.le_refl _, id, rfl, rfl, rfl⟩,
+    Nat.le_refl _, List.prefix_refl _, List.prefix_refl _, List.prefix_refl _, id⟩
+
+theorem frame_popPending (w : World) : Frame w w.popPending :=
+  ⟨rfl, rfl, rfl, rfl, rfl, rfl, rfl, Nat.le_refl _, fun _ a h => ⟨a, h, rfl, rfl, Nat.le_refl _, id, rfl, rfl, rfl⟩,
+    Nat.le_refl _, List.prefix_refl _, List.prefix_refl _, List.prefix_refl _, id⟩
+
 theorem frame_deliver (env : Env) (w : World) (m : Msg) : Frame w (w.deliver env m).1 := by
   unfold World.deliver
   have h0 : Frame w { w with stage := w.stage ++ [Fields.update m w.globals] } :=
@@ -66,7 +75,7 @@ theorem frame_deliver (env : Env) (w : World) (m : Msg) : Frame w (w.deliver env
       Nat.le_refl _, List.prefix_refl _, List.prefix_refl _, by simp, id⟩
   simp only
   split
-  · exact h0.trans (frame_fanOut env _ _ _)
+  · exact (h0.trans (frame_fanOut env _ _ _)).trans (frame_lastSlot _ _)
   · exact h0.trans ⟨rfl, rfl, rfl, rfl, rfl, rfl, rfl, Nat.le_refl _,
       fun _ a h => ⟨a, h, rfl, rfl, Nat.le_refl _, id, rfl, rfl, rfl⟩, Nat.le_refl _, List.prefix_refl _,
       List.prefix_refl _, List.prefix_refl _, id⟩
